@@ -64,6 +64,10 @@ PROPS["C11"] = dict(
     dict(name="c11-cell-big", harness="C11_construct.cpp", entries=["harness_c11_cell"], units=CORE, unwind=30, checks="none", object_bits=13, defines=["C11_PER=2"], tiers=["thorough"],
          shards=_c11_cell(B_HEX, 1, per=2) + _c11_cell(B_HEX, 0, per=2) + _c11_cell(B_PRISM_PYR, 1, per=2), timeout=900, mem_gb=6,
          bounds="add_cell(list, true) on B_HEX (V = 6 quads) families 0 and 1, B_PRISM_PYR (V = prism, 5 mixed faces) family 1; 2 lists per query; " + _C11_OBS),
+    dict(name="c11-cell-dirs", harness="C11_cell_dirs.cpp", entries=["harness_c11_cell_dirs"], units=CORE, unwind=30, checks="none", object_bits=13,
+         shards=[{0: k} for k in range(4)], timeout=300, mem_gb=3,
+         bounds="add_cell(list, true) on ONE quad face whose 4 edges were each created along or against the loop direction (all 16 patterns by symbolic selector: the face's halfedge indices are any mix "
+                "of even/odd), list = {hf0} | {hf1} (open: rejected, mesh unchanged) | {hf0,hf1} | {hf1,hf0} (closed pillow: accepted) -- acceptance must not depend on the numbering of the halfedges"),
     # ---- the empty list (covered by the property text: 'every argument list of live handles: empty, ...') -- FAILS: notes/C11-findings.md F-C11-2, F-C11-3
     dict(name="c11-empty", harness="C11_construct.cpp", entries=["harness_c11_empty_face", "harness_c11_empty_cell"], units=CORE, unwind=30, checks="mem", object_bits=13, tiers=["thorough"],
          shards=[{0: B_TET}], timeout=900, mem_gb=6,
